@@ -13,6 +13,11 @@ runtime that is run to quiescence after every script operation.
 * an exiting actor calls `unregister` (including the whole peer-gone loop) at once;
 * a *stalled* connection (client not draining its socket) has its actor blocked in the
   flush at the end of a loop iteration: it takes no step until it is unstalled.
+* virtual time: the client of a *slow* connection accepts each frame `slow c` ms after it
+  was written; the actor's `write_frame` is `timeout(write_timeout, stream.send(frame))`,
+  i.e. a PER-FRAME budget: the write of one frame completes iff the client accepts it within
+  `write_timeout`, otherwise the actor fails and unregisters.  Time only advances when
+  nothing else can run; pending accepts / timeouts happen in (time, connection) order.
 -/
 import IrohModel.Common.Hex
 import IrohModel.Common.RelayRegistry
@@ -38,6 +43,14 @@ structure Sim (α : Type) where
   inbox : Cid → List (Inb α)
   stalled : Cid → Bool
   runQ : List Cid
+  /-- ms the client of a connection takes to accept one frame (0 = at once) -/
+  slow : Cid → Nat := fun _ => 0
+  /-- a connection whose actor is inside `write_frame`: the time the frame was written -/
+  writing : Cid → Option Nat := fun _ => none
+  /-- virtual time, ms -/
+  now : Nat := 0
+  /-- `Config::write_timeout`, ms -/
+  wt : Nat := 0
 
 def Sim.init : Sim α := { st := RelayRegistry.init, inbox := fun _ => [], stalled := fun _ => false, runQ := [] }
 
@@ -69,6 +82,15 @@ def Sim.exitNow (cfg : Cfg α) (sim : Sim α) (c : Cid) : Sim α :=
 
 def setFn {β : Type} (f : Cid → β) (c : Cid) (v : β) : Cid → β := fun k => if k = c then v else f k
 
+/-- Did the last operation write a frame to `c`? then a slow client keeps the actor inside
+`write_frame` until it accepts the frame (or the write timeout fires). -/
+def Sim.afterWrite (sim : Sim α) (n : Nat) (c : Cid) : Sim α × Bool :=
+  let wrote := (sim.st.log.drop n).any fun ev => match ev with
+    | .out c' _ => c' == c
+    | _ => false
+  if wrote && sim.slow c != 0 then ({ sim with writing := setFn sim.writing c (some sim.now) }, true)
+  else (sim, false)
+
 /-- One poll of the actor of `c`: it runs until nothing is ready. -/
 def Sim.actorTurn (cfg : Cfg α) : Nat → Sim α → Cid → Sim α
   | 0, sim, _ => sim
@@ -76,27 +98,55 @@ def Sim.actorTurn (cfg : Cfg α) : Nat → Sim α → Cid → Sim α
     match sim.st.conns c with
     | none => sim
     | some x =>
-      if sim.stalled c then sim
+      if sim.stalled c || (sim.writing c).isSome then sim
       else if x.exited then
         let sim := sim.apply cfg (.unregister c)
         Sim.drainGone cfg (sim.st.pendingGone.length + 1) sim
       else if x.cancelled then sim.exitNow cfg c
       else
+        let n := sim.st.log.length
         match sim.inbox c with
         | .frame f :: rest =>
-          Sim.actorTurn cfg fuel ({ sim with inbox := setFn sim.inbox c rest }.apply cfg (.recvFrame c f)) c
+          let (sim, blocked) :=
+            ({ sim with inbox := setFn sim.inbox c rest }.apply cfg (.recvFrame c f)).afterWrite n c
+          if blocked then sim else Sim.actorTurn cfg fuel sim c
         | .eof :: _ => sim.exitNow cfg c
         | [] =>
-          if !x.packetQ.isEmpty then Sim.actorTurn cfg fuel (sim.apply cfg (.deliverPacket c)) c
-          else if !x.msgQ.isEmpty then Sim.actorTurn cfg fuel (sim.apply cfg (.deliverMsg c)) c
+          if !x.packetQ.isEmpty then
+            let (sim, blocked) := (sim.apply cfg (.deliverPacket c)).afterWrite n c
+            if blocked then sim else Sim.actorTurn cfg fuel sim c
+          else if !x.msgQ.isEmpty then
+            let (sim, blocked) := (sim.apply cfg (.deliverMsg c)).afterWrite n c
+            if blocked then sim else Sim.actorTurn cfg fuel sim c
           else sim
+
+/-- The earliest pending accept / write timeout: (time, connection, accepted?). -/
+def Sim.nextEvent (sim : Sim α) : Option (Nat × Cid × Bool) :=
+  (List.range sim.st.nextCid).foldl (fun best c =>
+    match sim.writing c with
+    | none => best
+    | some t0 =>
+      let ev : Nat × Cid × Bool :=
+        if sim.slow c ≤ sim.wt then (t0 + sim.slow c, c, true) else (t0 + sim.wt, c, false)
+      match best with
+      | none => some ev
+      | some b => if ev.1 < b.1 then some ev else best) none
 
 def Sim.settle (cfg : Cfg α) : Nat → Sim α → Sim α
   | 0, sim => sim
   | fuel + 1, sim =>
     match sim.runQ with
-    | [] => sim
     | c :: rest => Sim.settle cfg fuel (Sim.actorTurn cfg 100000 { sim with runQ := rest } c)
+    | [] =>
+      -- nothing can run: virtual time advances to the next accept / write timeout
+      match sim.nextEvent with
+      | none => sim
+      | some (t, c, accepted) =>
+        let sim := { sim with now := t, writing := setFn sim.writing c none }
+        if accepted then Sim.settle cfg fuel (sim.wake c)
+        else
+          -- `tokio::time::timeout` elapsed inside `write_frame`: the actor fails
+          Sim.settle cfg fuel (sim.exitNow cfg c)
 
 def Sim.pushIn (sim : Sim α) (c : Cid) (i : Inb α) : Sim α :=
   -- a connection index the script has not created yet: the harness ignores the operation
@@ -119,6 +169,7 @@ inductive SOp (α : Type) where
   | pong (c : Cid) (data : Nat)
   | stall (c : Cid)
   | unstall (c : Cid)
+  | slow (c : Cid) (ms : Nat)
   | shutdown
   | shutreg (id : Id) (v1 : Bool)
   | decoded (c : Cid) (f : Option (C2R α))
@@ -159,6 +210,7 @@ def Sim.doOp (cfg : Cfg α) (sim : Sim α) : SOp α → Sim α × String
     | none => (sim, "-")
     | some _ => ({ sim with stalled := setFn sim.stalled c true }, "-")
   | .unstall c => (({ sim with stalled := setFn sim.stalled c false }).wake c, "-")
+  | .slow c ms => if c < sim.st.nextCid then ({ sim with slow := setFn sim.slow c ms }, "-") else (sim, "-")
   | .shutdown =>
     let regs := registeredList sim.st
     (regs.foldl Sim.wake (sim.apply cfg .shutdown), "-")
@@ -232,11 +284,11 @@ def Sim.runOp (render : State α → Cid → R2C α → String) (cfg : Cfg α) (
   let estr := if ended.isEmpty then "-" else joinWith "," (ended.map toString)
   (sim, s!"{res} {fstr} X{estr} {snapStr numIds sim.st}")
 
-def runScript (render : State α → Cid → R2C α → String) (cfg : Cfg α) (numIds : Nat) (ops : List (SOp α)) :
-    String :=
+def runScript (render : State α → Cid → R2C α → String) (cfg : Cfg α) (numIds : Nat) (ops : List (SOp α))
+    (wt : Nat := 0) : String :=
   let (_, outs) := ops.foldl (fun (acc : Sim α × List String) op =>
     let (sim, o) := acc.1.runOp render cfg numIds op
-    (sim, o :: acc.2)) (Sim.init, [])
+    (sim, o :: acc.2)) ({ (Sim.init : Sim α) with wt := wt }, [])
   joinWith "|" outs.reverse
 
 -- ---------------------------------------------------------------------------------------------
@@ -271,6 +323,7 @@ def parseCtl (s : String) : Option (SOp α) :=
   | ["pong", c, d] => do pure (.pong (← c.toNat?) (← natOfHex d))
   | ["stall", c] => do pure (.stall (← c.toNat?))
   | ["unstall", c] => do pure (.unstall (← c.toNat?))
+  | ["slow", c, ms] => do pure (.slow (← c.toNat?) (← ms.toNat?))
   | ["shutdown"] => some .shutdown
   | ["shutreg", id, v] => do pure (.shutreg (← id.toNat?) (← parseVer v))
   | _ => none
@@ -295,18 +348,24 @@ def parseSOp (cfg : Cfg Tok) (s : String) : Option (SOp Tok) :=
 /-- Parses and replays a whole payload; `mkCfg cap` builds the configuration
 (`cap = 0` stands for the crate's default capacity). -/
 def runPayloadWith (extra : Cfg Tok → String → Option (SOp Tok)) (mkCfg : Nat → Cfg Tok) (numIds : Nat)
-    (payload : String) : String :=
+    (payload : String) (defaultWt : Nat := 0) : String :=
   match payload.splitOn ";" with
   | [] => "bad-input"
   | capS :: opsS =>
-    match capS.trimAscii.toString.toNat? with
+    -- `cap` or `cap:T` (T = write timeout in ms)
+    let hd := capS.trimAscii.toString.splitOn ":"
+    let capWt : Option (Nat × Nat) := match hd with
+      | [c] => c.toNat?.map fun c => (c, defaultWt)
+      | [c, t] => do pure (← c.toNat?, ← t.toNat?)
+      | _ => none
+    match capWt with
     | none => "bad-input"
-    | some cap =>
+    | some (cap, wt) =>
       let cfg := mkCfg cap
       match (opsS.filter (fun o => !(tokens o).isEmpty)).mapM
           (fun o => (parseSOp cfg o).orElse fun _ => extra cfg o) with
       | none => "bad-input"
-      | some ops => runScript (fun _ _ f => frameStr f) cfg numIds ops
+      | some ops => runScript (fun _ _ f => frameStr f) cfg numIds ops wt
 
 def runPayload (mkCfg : Nat → Cfg Tok) (numIds : Nat) (payload : String) : String :=
   runPayloadWith (fun _ _ => none) mkCfg numIds payload
